@@ -30,6 +30,8 @@ fn new_inst() -> Inst {
         for i in 0..6 {
             router.bank.init_balance(storage, &addr(&format!("delegator{}", i)), vec![coin(u(1000), "TOKEN")]).unwrap();
         }
+        // a holder of many denominations (step 5 sends a list that names one of them twice)
+        router.bank.init_balance(storage, &addr("many"), (0..8).map(|i| coin(u(100), &format!("d{}", i))).collect()).unwrap();
     });
     Inst { app, log: vec![], addrs: vec![] }
 }
@@ -71,7 +73,15 @@ fn step(i: &mut Inst, n: usize) {
             let Some(k0) = i.addrs.first().cloned() else { return i.log.push("skip".into()) };
             format!("{:?}", i.app.execute_contract(user.clone(), k0, &Script::new().write("x", "1").fail("no"), &[]).map_err(|e| e.to_string()))
         }
-        5 => format!("{:?}", i.app.send_tokens(user.clone(), addr("bob"), &[coin(sym_u128("a5", 0, BAL), "x")]).map_err(|e| e.to_string())),
+        5 => {
+            let mut list: Vec<cosmwasm_std::Coin> = (0..8).map(|j| coin(u(1 + j as u128), &format!("d{}", j))).collect();
+            list.push(coin(u(2), "d3"));
+            format!(
+                "{:?} {:?}",
+                i.app.send_tokens(user.clone(), addr("bob"), &[coin(sym_u128("a5", 0, BAL), "x")]).map_err(|e| e.to_string()),
+                i.app.send_tokens(addr("many"), addr("bob"), &list).map_err(|e| e.to_string())
+            )
+        }
         6 => {
             // several delegators on one validator (set-valued bookkeeping must serialise the same way)
             let mut out = vec![];
